@@ -164,7 +164,21 @@ def _results():
 
 def make_gpu_rule():
     def run(r):
-        for unit, rows in sorted(_results().items()):
+        try:
+            res = _results()
+        except AnalysisError as exc:
+            msg = str(exc)
+            m = re.search(r"clang failed on (\S+): \[[\"'](.*?):(\d+):\d+: error: (.*?)[\"'],", msg)
+            if not m:
+                raise
+            # compile-fail witness: the OpenCL C front end rejects the generated source of this model
+            unit, pfile, line, err = m.group(1), m.group(2), int(m.group(3)), m.group(4)
+            f = cfront.repo_path(pfile)
+            r.violation(f, unit, "OpenCL source of the model is accepted by the OpenCL C front end", line,
+                        "clang -x cl rejects the generated kernel: %s - the model cannot be built for a GPU at all (the dll build, "
+                        "plain C, may still accept the same text)" % err)
+            return
+        for unit, rows in sorted(res.items()):
             for row in rows:
                 _, status, f, fn, construct, line, detail = row
                 getattr(r, status)(f, fn, construct, line, detail)
